@@ -458,7 +458,9 @@ Proof.
   unfold handle_last_will. intros HW H. destruct (al_get str_eqb client (r_wills st)) as [w |]; [| now inv_ok].
   cbv zeta in H. destruct (negb _) in H.
   - inv_ok. eapply WakeG_wle; [| exact HW]. apply wle_view. reflexivity.
-  - apply bind_ok in H as ([st3 idxs] & H3 & H). apply bind_ok in H as (st4 & H4 & H).
+  - match type of H with (if ?b then _ else _) = _ => destruct b end;
+      [inv_ok; eapply WakeG_wle; [| exact HW]; apply wle_view; reflexivity |].
+    apply bind_ok in H as ([st3 idxs] & H3 & H). apply bind_ok in H as (st4 & H4 & H).
     eapply drain_notifications_wake; [| exact H].
     apply dl_matches_wv in H3. apply append_all_wv in H4. rewrite retain_update_wv in H3.
     eapply WakeG_wle; [| exact HW]. apply wle_view. rewrite H4, H3. reflexivity.
